@@ -41,7 +41,11 @@ func prelude(body string) string {
 	b.WriteString("(declare-fun mkiface (Int Int) Int)\n(declare-fun dyntag (Int) Int)\n(declare-fun payload (Int) Int)\n")
 	b.WriteString("(declare-fun sub (Int Int) Int)\n(declare-fun subp (Int) Int)\n(declare-fun subi (Int) Int)\n")
 	b.WriteString("(declare-fun stridx (Str Str) Int)\n(declare-fun crcrange (Int Int Int) Int)\n")
-	b.WriteString("(declare-fun byteof (Int Int) Int)\n(declare-fun le16 (Int Int) Int)\n(declare-fun le32 (Int Int Int Int) Int)\n(declare-fun le64 (Int Int Int Int Int Int Int Int) Int)\n")
+	b.WriteString("(declare-fun byteof (Int Int) Int)\n")
+	// assembling a little-endian word from its bytes is linear, so it is defined, not axiomatised
+	b.WriteString("(define-fun le16 ((b0 Int) (b1 Int)) Int (+ b0 (* 256 b1)))\n")
+	b.WriteString("(define-fun le32 ((b0 Int) (b1 Int) (b2 Int) (b3 Int)) Int (+ b0 (* 256 b1) (* 65536 b2) (* 16777216 b3)))\n")
+	b.WriteString("(define-fun le64 ((b0 Int) (b1 Int) (b2 Int) (b3 Int) (b4 Int) (b5 Int) (b6 Int) (b7 Int)) Int (+ b0 (* 256 b1) (* 65536 b2) (* 16777216 b3) (* 4294967296 b4) (* 1099511627776 b5) (* 281474976710656 b6) (* 72057594037927936 b7)))\n")
 	if strings.Contains(body, "slen") || strings.Contains(body, "(sat ") || strings.Contains(body, "emptystr") {
 		b.WriteString("(assert (= (slen emptystr) 0))\n")
 		b.WriteString("(assert (forall ((s Str)) (! (and (>= (slen s) 0) (<= (slen s) " + pow48 + ")) :pattern ((slen s)))))\n")
@@ -280,6 +284,17 @@ func (e *Engine) solveOb(o *Oblig, timeout int, thorough bool, dumpDir string) {
 		}
 	default:
 		o.Status = "unknown"
+		// nobody decided it: one more attempt with a longer limit and another seed before giving up
+		// (keeps a heavily loaded machine from turning a slow proof into an alarm)
+		retry := solverSpec{"z3-new", func(t int) []string {
+			return []string{"z3-new", fmt.Sprintf("-T:%d", t), "smt.random_seed=7", "-in"}
+		}}
+		r, out, dt := runSolver(retry, vc, timeout*4)
+		o.Seconds += dt
+		o.Output += fmt.Sprintf("\n[z3-new retry] %s", strings.TrimSpace(firstLines(out, 3)))
+		if r == "unsat" {
+			o.Status, o.Solver = "unsat", "z3-new(retry)"
+		}
 	}
 }
 
